@@ -496,25 +496,12 @@ def classify(case: dict, res: dict) -> dict:
     if res.get("clause") == "total":
         if exc == "TypeError" and "issubclass() arg 1 must be a class" in msg and last.get("selftype"):
             kind = "self-type"
-        elif exc == "TypeError" and "doesn't apply to a 'CC' object" in msg and last.get("slots_hit"):
-            kind = "slots-descriptor-default"
         elif exc == "NameError" and last.get("nt_fwd_default"):
             kind = "default-over-string-annotated-namedtuple"
         elif exc == "ValueError" and msg.startswith("mutable default") and last.get("nt_mutable"):
             kind = "nt-mutable-default"
-        elif exc in ("RecursionError", "CaseTimeout") and last.get("cyclic") and not last.get("field_strategy_unannotated") and not last.get("field_override_container"):
+        elif exc in ("RecursionError", "CaseTimeout") and last.get("cyclic"):
             kind = "recursive-class"
-        elif exc in ("RecursionError", "CaseTimeout") and last.get("field_strategy_unannotated") and not last.get("cyclic"):
-            kind = "field-strategy-unannotated"
-        elif exc in ("RecursionError", "CaseTimeout") and last.get("field_override_container") and not last.get("cyclic"):
-            kind = "field-override-container"
-    elif res.get("clause") == "metaschema" and "validator crashed" in res.get("what", "") and res.get("detail", {}).get("depth", 0) >= 150 \
-            and any(f.get("field_override_container") for f in upto):
-        # the library swallowed its own RecursionError (except Exception -> Any) and returned a ~1000-deep document
-        kind = "field-override-container"
-    elif res.get("clause") == "accumulate" and any(f.get("field_override_container") for f in upto):
-        # the ~1000-deep document of that finding depends on the stack depth at which the library's own RecursionError hit
-        kind = "field-override-container"
     elif res.get("clause") == "accumulate":
         if _clash_across(upto):
             kind = "defs-bare-name-clash"
